@@ -3,8 +3,8 @@
 PROVED (coq/Properties_C05.v): capacity arithmetic of loc/cmd/arg[EXLEN] (ex_loc, ex_cmd, ex_arg, the
 guard and loop of ex_exec), ibuf/icmd (term_push, term_read, term_cmd), ex_region / ex_lineno,
 tok/opt/pls[EXLEN] (cutword, ec_set, ex_plus), the small tables (CapDefs2.v) and the stack buffers of the
-insert-mode helpers -- char tag[] of vi_help (^A), char ai[] of led_input (CapDefs3.v) -- on models with checked
-reads and writes.
+insert-mode helpers -- char tag[] of vi_help (^A), char ai[] of led_input (CapDefs3.v) --, the loads of ex.c replace() from
+offs[32] and from the line (CapDefs4.v) on models with checked reads and writes.
 TIE: harness/probe_exparse.c (also REG(), ex_pathexpand, bufs[]) and harness/probe_cap2.c (reg_put / reg_get, markidx /
 lbuf_mark / lbuf_jump) versus the model on every register name and mark character, path expansions around the size
 of the buffer, sessions that open more buffers than there are slots;
@@ -12,12 +12,17 @@ harness/probe_exparse.c (#includes ex.c and term.c; heap blocks of exactly EXLEN
 bytes; plain and ASan/UBSan builds) versus the extracted model on exhaustive short command lines
 over the alphabet of address characters, command letters and delimiters, random lines up to and
 beyond EXLEN with multi-byte text, address strings, and queue operation sequences.
+probe request `subst` (probe_exparse.c): rstr_make / rstr_find on generated patterns with groups inside alternatives, under ? * {m,n}
+and nested, on lines drawn from the pattern and then damaged; oracle = the precondition of replace()'s memcpy on the offsets the real
+matcher hands to ec_substitute (every group unset or inside the line: the hypothesis of C05_replace_reads_safe, CapDefs4.v);
+the bytes the real replace() appends versus the extracted model.
 harness/probe_help.c (#includes vi.c; tag_find renamed so that the word copied into tag[] is observed; led_input
 driven through the input queue) versus the model on words of every length around the buffer size made of one- to
 four-byte characters, and on ^T / ^D / indentation sequences.
 EXPLORED (not proof): grammar-based command streams (tools/gen_c05.py) for `vi -s -e` and `vi -v`
 on the ASan/UBSan build -- general streams, insert-mode helper keys after long words, :g / :v commands that
-replace one line by several (bounded time: a hang detector); oracle: no sanitizer report, exit status 0,
+replace one line by several (bounded time: a hang detector), substitutions whose replacement refers to capture groups of
+abandoned pattern parts (a group in an alternative that is given up, under ? * {m,n}, nested); oracle: no sanitizer report, exit status 0,
 quit reached in time.
 """
 import itertools, json, os, re, glob
@@ -688,6 +693,119 @@ def run_help_part(ctx, K):
 
 
 # ---------------------------------------------------------------------------------------------
+# ex.c replace(): the group offsets the matcher hands to ec_substitute (probe request `subst`) versus CapDefs4.v
+
+NOFFS = 32
+
+
+def subst_requests(ctx):
+    """`subst <ic> <pattern> <line> <replacement>` (hex): the patterns of the `groups` stream (1..4 groups inside alternatives,
+    under ? * {m,n}, nested) on lines drawn from the pattern and then damaged, and the smallest pattern of every shape on
+    every line of up to four letters; the replacement refers to every group."""
+    r = ctx.rng.fork('subst')
+    reqs = []
+    for shape in G.GROUP_SHAPES:
+        pat = shape.replace('A', 'a').replace('B', 'b').replace('C', 'c').replace('X', 'x').replace('Y', 'y')
+        ng = pat.count('(')
+        letters = sorted(set(ch for ch in pat if ch.isalpha())) + ['z']
+        rp = '<' + '|'.join('\\%d' % k for k in range(1, min(ng + 1, 9) + 1)) + '>'
+        for n in range(1, 5 if ctx.quick else 6):
+            for t in itertools.product(letters, repeat=n):
+                reqs.append('subst 0 %s %s %s' % (vlib.hx(pat.encode()), vlib.hx(''.join(t).encode()), vlib.hx(rp.encode())))
+    for i in range(1200 if ctx.quick else 20000):
+        q = r.fork(str(i))
+        tree = G.g_pattern(q)
+        pat, ng = G.g_text(tree), G.g_groups(tree)
+        for ln in G.group_lines(q, tree, q.choice([2, 3, 4])):
+            ln = ln.replace('\n', '')[:40]
+            reqs.append('subst %d %s %s %s' % (1 if q.chance(1, 8) else 0, vlib.hx(pat.encode('utf-8')), vlib.hx(ln.encode('utf-8')), vlib.hx(G.g_repl(q, ng).encode('utf-8'))))
+    return list(dict.fromkeys(reqs))
+
+
+def decode_subst(q):
+    w = q.split(' ')
+    return 'pattern %r line %r replacement %r%s' % (vlib.unhx(w[2]).decode('utf-8', 'replace'), vlib.unhx(w[3]).decode('utf-8', 'replace'),
+                                                    vlib.unhx(w[4]).decode('utf-8', 'replace'), ' (ic)' if w[1] != '0' else '')
+
+
+def subst_oracle(q, a):
+    """The precondition of replace()'s memcpy on the implementation's own answer: every group the matcher reports is unset or
+    inside the line, the whole match is set."""
+    if a in ('nopat', 'nomatch'):
+        return None
+    f = a.split()
+    n = len(vlib.unhx(q.split(' ')[3]))
+    try:
+        offs = [int(x) for x in f[:NOFFS]]
+    except ValueError:
+        return 'malformed answer'
+    if len(offs) != NOFFS:
+        return 'malformed answer'
+    for g in range(NOFFS // 2):
+        so, eo = offs[2 * g], offs[2 * g + 1]
+        if not ((so == -1 and eo == -1) or (0 <= so <= eo <= n)):
+            return ('the matcher hands ec_substitute group %d with offsets (%d, %d) on a line of %d bytes: a reference \\%d in the replacement makes '
+                    'replace() call memcpy(.., ln + %d, %d)' % (g, so, eo, n, g, so, eo - so))
+    if offs[0] < 0:
+        return 'a match without the offsets of the whole match'
+    return None
+
+
+def run_subst_part(ctx, K):
+    res = ctx.res
+    if ctx.replay:
+        rp = json.load(open(ctx.replay))
+        reqs = [x for x in rp.get('input', []) if isinstance(x, str) and x.split(' ')[0] == 'subst']
+        if not reqs:
+            return
+    else:
+        reqs = subst_requests(ctx)
+    out_a = run_probe(res, vlib.build_probe('exparse', includes=['ex', 'term'], asan=True), 'probe_exparse subst (ASan/UBSan)', reqs, PROBE_ENV, decode_subst)
+    out_c = run_probe(res, vlib.build_probe('exparse', includes=['ex', 'term']), 'probe_exparse subst', reqs, PROBE_ENV, decode_subst)
+    mreqs, midx = [], []
+    nbad = 0
+    for i, q in enumerate(reqs):
+        a = out_c[i] if i < len(out_c) else 'SKIPPED'
+        b = out_a[i] if i < len(out_a) else 'SKIPPED'
+        res.evaluations += 1
+        res.count('probe subst')
+        if a in ('CRASH', 'SKIPPED'):
+            continue
+        if b not in ('CRASH', 'SKIPPED') and a.strip() != b.strip():
+            res.violation({'what': 'plain and sanitized builds answer differently (undefined behaviour)', 'input': [q], 'decoded': decode_subst(q), 'expected': a[:600], 'observed': b[:600]})
+        bad = subst_oracle(q, a)
+        if bad:
+            nbad += 1
+            if nbad <= 3:
+                res.violation({'what': bad, 'input': [q], 'decoded': decode_subst(q), 'expected': 'every group unset (-1, -1) or 0 <= start <= end <= length of the line', 'observed': a[:600]})
+            continue
+        if a not in ('nopat', 'nomatch'):
+            f = a.split()
+            if any(int(x) >= 0 for x in f[2:NOFFS]):
+                res.nontriv(q[:200])
+            w = q.split(' ')
+            mreqs.append('repl %s %s %s' % (w[4], w[3], ' '.join(f[:NOFFS])))
+            midx.append((i, f[NOFFS] if len(f) > NOFFS else '-'))
+    res.extra['subst_requests_with_malformed_offsets'] = nbad
+    model = ctx.model('cap')
+    nd = 0
+    if model and mreqs:
+        rc, out_m, err = vlib.run_lines(model, mreqs, timeout=600)
+        if rc != 0 or len(out_m) != len(mreqs):
+            res.disagree({'what': 'model driver: rc=%d, %d answers for %d requests' % (rc, len(out_m), len(mreqs)), 'stderr': err[-1000:]})
+        else:
+            for (i, got), mq, m in zip(midx, mreqs, out_m):
+                if got != m.strip():
+                    nd += 1
+                    if nd <= 5:
+                        res.disagree({'what': 'model and implementation differ (replace)', 'input': [reqs[i]], 'decoded': decode_subst(reqs[i]), 'model_request': mq[:400],
+                                      'implementation': got[:600], 'model': m[:600]})
+    res.extra['subst_probe_disagreements'] = nd
+    for q, a in list(zip(reqs, out_c))[::max(1, len(reqs) // 3)][:3]:
+        res.sample({'request': decode_subst(q)[:200], 'answer': a[:200]})
+
+
+# ---------------------------------------------------------------------------------------------
 # the editor under sanitizers
 
 def signature(err):
@@ -723,6 +841,8 @@ def classify(exe, case, f, err):
     """Root-cause classifiers of the findings listed for C05 in KNOWN_FINDINGS.txt.  The only one left is
     KF-EMPTY-LOOP: the run is a time-out (no sanitizer report) and a pattern of the stream has a loop over a body that
     can match the empty string.  The generator never emits such patterns; the canonical input is in the corpus."""
+    if case.get('stream') == 'groups':
+        return None             # that stream builds its patterns from a tree and never puts a loop on a part that can match the empty string
     if f and f.startswith('hang') and any(G.nullable_loop(l.decode('utf-8', 'replace')) for l in case['lines']):
         return 'KF-EMPTY-LOOP'
     return None
@@ -812,6 +932,7 @@ STREAMS = {
     'vi': ('vi', None, TIMEOUT),
     'helper': ('vi', 'helper_stream', 30),             # insert-mode helper keys after long words (every key redraws a long line)
     'glob': ('ex', 'glob_script', GLOB_TIMEOUT),       # :g / :v whose command replaces a line by several
+    'groups': ('ex', 'group_script', GLOB_TIMEOUT),    # :s whose replacement refers to capture groups of abandoned pattern parts (alternatives, ? * {m,n}, nesting)
 }
 
 
@@ -826,7 +947,7 @@ def make_case(r, name):
     if name == 'helper':
         atoms, files, rows, cols = G.helper_stream(r)
         return {'kind': 'vi', 'lines': atoms, 'files': files, 'rows': rows, 'cols': cols, 'args': ['f.txt'], 'timeout': lim, 'stream': name}
-    lines, files = G.glob_script(r)
+    lines, files = G.group_script(r) if name == 'groups' else G.glob_script(r)
     return {'kind': 'ex', 'lines': lines, 'files': files, 'args': ['f.txt'], 'timeout': lim, 'stream': name}
 
 
@@ -930,7 +1051,7 @@ def run(ctx):
     K = consts()
     res.rule = ('probe: one request = one command line / address string / queue operation sequence through the real scanners (plain + ASan) and the model; '
                 'exhaustive lines up to length %d over a %d-symbol alphabet, random lines around %d bytes. streams: one generated ex script or vi key stream on the '
-                'ASan/UBSan editor (general ex / vi streams, insert-mode helper keys after long words, :g commands that add lines). non-trivial = probe request longer than a few bytes, or a stream with multi-byte text; distinct = distinct request / stream'
+                'ASan/UBSan editor (general ex / vi streams, insert-mode helper keys after long words, :g commands that add lines, :s with back-references to groups of abandoned pattern parts). non-trivial = probe request longer than a few bytes, or a stream with multi-byte text; distinct = distinct request / stream'
                 % (3 if ctx.quick else 4, len(ALPHA), K['EXLEN']))
     res.extra['exploration_note'] = 'the command-stream part is exploration (testing under sanitizers), not proof'
     exe = vlib.build_vi(asan=True)
@@ -949,14 +1070,18 @@ def run(ctx):
         run_probe_part(ctx, K)
         run_tables_part(ctx, K)
         run_help_part(ctx, K)
+        run_subst_part(ctx, K)
         return
     run_corpus(ctx, exe)
     run_probe_part(ctx, K)
     run_tables_part(ctx, K)
     run_help_part(ctx, K)
+    run_subst_part(ctx, K)
     n = int(os.environ.get('C05_STREAMS', '0') or 0) or (2500 if ctx.quick else 30000)
     sweep = sweep_cases(K)
     explore(ctx, exe, 'helper', max(1, n // 5), extra=[c for c in sweep if c['stream'] == 'helper'])
     explore(ctx, exe, 'glob', max(1, n // 5), extra=[c for c in sweep if c['stream'] == 'glob'])
+    gsweep = [{'kind': 'ex', 'lines': ls, 'files': fs, 'args': ['f.txt'], 'timeout': GLOB_TIMEOUT, 'stream': 'groups'} for ls, fs in G.group_sweep()]
+    explore(ctx, exe, 'groups', max(1, n // 5), extra=gsweep)
     explore(ctx, exe, 'ex', n)
     explore(ctx, exe, 'vi', n)
